@@ -10,7 +10,7 @@ from sa.core import Ctx
 from sa.sm import call_kw, dotted, find_calls, norm
 
 from . import common
-from .c05 import check_counter, check_first_def
+from .c05 import check_counter, check_first_def, check_single_exit
 
 
 def check_rl_rows(ctx: Ctx, rule: str, m: S.SchemeModel, rows, label: str):
@@ -118,7 +118,8 @@ def check_delta_flow(ctx: Ctx, rule: str):
     common.check_scheme_kwargs(ctx, rule, "delta", only_builders={_table.get("generalized_rush_larsen", "generalized_rush_larsen")})
     # and the kwargs reach codegen.scheme(...)
     sc = [c for c in find_calls(add.node, "codegen.scheme")]
-    ctx.check(bool(sc) and any(k.arg is None and norm(k.value) == "kwargs" for k in sc[0].keywords), rule, add.key("kwargs-forwarded"), "**kwargs reach codegen.scheme", "add_schemes does not forward **kwargs to codegen.scheme", add.where())
+    sc = sc or [c for c in ast.walk(add.node) if isinstance(c, ast.Call) and isinstance(c.func, ast.Attribute) and c.func.attr == "scheme"]
+    ctx.check(bool(sc) and any(k.arg is None for k in sc[0].keywords), rule, add.key("kwargs-forwarded"), "**kwargs reach codegen.scheme", "add_schemes does not forward the per-scheme keyword arguments (**...) to codegen.scheme", add.where())
     cg = sm.func("codegen/base.py", "CodeGenerator.scheme")
     fparam = cg.params[1]
     bcall = [c for c in ast.walk(cg.node) if isinstance(c, ast.Call) and isinstance(c.func, ast.Name) and c.func.id == fparam]
@@ -142,6 +143,7 @@ def run(ctx: Ctx):
     m = models[name]
     check_first_def(ctx, "R06.a", m)
     check_counter(ctx, "R06.a", m)
+    check_single_exit(ctx, "R06.a", m)
     rows = [r for r in m.rows if dict(S.normalise_lits(r.lits)).get("ISDERIV")]
     for r in rows:
         lits = dict(S.normalise_lits(r.lits))
